@@ -3,7 +3,8 @@ from .xsbase import *
 from . import cells
 
 SIZES = [0, 1, 3, 4, 7, 8, 9, 12, 16, 24, 31, 32, 33, 63, 64, 65, 127, 128, 129, 200]
-HUGE = [2 ** 31, 2 ** 63 - 1, 2 ** 63, 2 ** 64 - 1, 2 ** 64, 2 ** 127 - 1, -1, -(2 ** 63)]
+HUGE = [2 ** 31, 2 ** 63 - 1, 2 ** 63, 2 ** 64 - 1, 2 ** 64, 2 ** 127 - 1, -1, -(2 ** 63),
+        2 ** 61, 2 ** 61 + 1, 2 ** 61 + 2, 2 ** 62 + 1, 3 * 2 ** 61 + 3, 2 ** 60 + 1, 2 ** 64 + 8, 2 ** 32 + 1]
 NONINT = ['"x"', 'nil', '[ 1 ]', '1.5', 'true']
 FIXED = ['u8', 'i8', 'u16', 'i16le', 'u16be', 'u32', 'i32be', 'u32le', 'u64', 'i64', 'u64be', 'i64le', 'f32', 'f64', 'f32be', 'f64le']
 FIXED_W = {'8': 8, '16': 16, '32': 32, '64': 64}
